@@ -308,6 +308,11 @@ Definition is_relative_spec (k : key) : bool :=
   | l => rel_groups 8 rel_units l
   end.
 
+(* keys the harness writes for native date / datetime objects ("d:" + isoformat): since /repo
+   f9811a2 they are parsed without the lru caches, which hold text keys only (aware datetimes for
+   one instant compare equal across zones, so a cache keyed by them is not a function of the text) *)
+Definition is_object_key (k : key) : bool := prefix "d:" k.
+
 (* keys that parse_datetimespec answers from the clock, before the cache is consulted *)
 Definition is_clock_key (k : key) : bool :=
   String.eqb k "now" || String.eqb k "today" || is_relative_spec k.
@@ -390,6 +395,10 @@ Section Run.
          Ok (mkRs (rs_ids s) (rs_states s) (gen_set g (c, i + 1) (rs_gens s)) (rs_start s), [BUid g c i]))
       end
     | ODate k =>
+      if is_object_key k                  (* a native date / datetime: answered without the cache
+                                             (/repo f9811a2: only text is cached) *)
+      then (p, match parse_d k with Some v => Ok (s, [BVal v]) | None => Err dge end)
+      else
       let '(c, r) := lru_call date_cache_size parse_d (p_dates p) k in
       (set_dates p c, match r with Some v => Ok (s, [BVal v]) | None => Err dge end)
     | ODatetime k =>
@@ -397,6 +406,8 @@ Section Run.
       else if String.eqb k "today" then (p, Ok (s, [BVal (e_today e)]))
       else if is_relative_spec k then (p, Ok (s, [BVal (e_now e)]))     (* now + offset: the harness
                                                        subtracts the offset before locating the value *)
+      else if is_object_key k
+      then (p, match parse_dt k with Some v => Ok (s, [BVal v]) | None => Err dge end)
       else
         let '(c, r) := lru_call date_cache_size parse_dt (p_dts p) k in
         (set_dts p c, match r with Some v => Ok (s, [BVal v]) | None => Err dge end)
@@ -414,6 +425,12 @@ Section Run.
       match assoc_find site (rs_states s) with
       | Some _ => (p, Ok (s, []))
       | None =>
+        if is_object_key k
+        then (p, match parse_d k with
+                 | Some v => Ok (set_state s (assoc_set site 0 (rs_states s)), [BVal v])
+                 | None => Err dge
+                 end)
+        else
         let '(c, r) := lru_call date_cache_size parse_d (p_dates p) k in
         (set_dates p c,
          match r with
